@@ -166,7 +166,7 @@ def run(model: RepoModel, rep, tier: str):
         for c in subs:
             pat = _const_pattern(c.args[0], f, bm)
             flags = _flags_value(next((k.value for k in c.keywords if k.arg == "flags"), c.args[4] if len(c.args) > 4 else None))
-            key = f"{BASIC}::{hname}::re.sub({norm(c.args[0])[:50]})"
+            key = f"{BASIC}::{hname}::`re.sub({norm(c.args[0])[:50]})`"
             # substitutions applied to a single line (inside a `for line in ...splitlines()` loop) cannot change the line count
             per_line = any(isinstance(l, ast.For) and any(x is c for x in ast.walk(l)) and "splitlines" in norm(l.iter) or
                            (isinstance(l, ast.For) and isinstance(l.iter, ast.Name) and l.iter.id == "lines" and any(x is c for x in ast.walk(l)))
@@ -243,15 +243,22 @@ def run(model: RepoModel, rep, tier: str):
     if p1 is None:
         raise AnalysisError("P1 analysis class not found")
     runf = p1.methods["run"]
-    unit_loops = [l for l in walk_no_nested(runf.node) if isinstance(l, ast.For) and isinstance(l.target, ast.Name) and "unit" in l.target.id
-                  and any(isinstance(x, ast.Call) and is_self_attr(x.func, "analyze_method") for x in ast.walk(l))]
+    # the per-unit loop by role: the outermost loop that (transitively) calls analyze_method; the table by role: the argument
+    # passed to analyze_method at the position of its `external_symbol_id_collection` parameter
+    am_ = p1.methods["analyze_method"]
+    pos = am_.params.index("external_symbol_id_collection") - 1 if "external_symbol_id_collection" in am_.params else None
+    all_loops = [l for l in walk_no_nested(runf.node) if isinstance(l, ast.For)
+                 and any(isinstance(x, ast.Call) and is_self_attr(x.func, "analyze_method") for x in ast.walk(l))]
+    unit_loops = [l for l in all_loops if not any(l is not o and any(x is l for x in ast.walk(o)) for o in all_loops)]
+    table_vars = {c.args[pos].id for l in unit_loops for c in ast.walk(l) if isinstance(c, ast.Call) and is_self_attr(c.func, "analyze_method")
+                  and pos is not None and pos < len(c.args) and isinstance(c.args[pos], ast.Name)}
     key = "basics/basic_analysis.py::run::external_symbol_id_collection is created per unit"
     if not unit_loops:
         rep.unknown("C12.R2", key, ba.rel, runf.node.lineno, "per-unit def-use loop not recognised")
     else:
         l = unit_loops[0]
         created_in = [x for x in l.body if isinstance(x, ast.Assign) and isinstance(x.targets[0], ast.Name)
-                      and x.targets[0].id == "external_symbol_id_collection" and isinstance(x.value, ast.Dict) and not x.value.keys]
+                      and x.targets[0].id in table_vars and isinstance(x.value, ast.Dict) and not x.value.keys]
         first_use = min((x.lineno for x in ast.walk(l) if isinstance(x, ast.Call) and is_self_attr(x.func, "analyze_method")), default=0)
         if created_in and min(c.lineno for c in created_in) < first_use:
             rep.holds("C12.R2", key, ba.rel, created_in[0].lineno, "a fresh dict at the top of every unit iteration")
